@@ -1,6 +1,8 @@
 package gen
 
 import (
+	"google.golang.org/protobuf/reflect/protodesc"
+	"google.golang.org/protobuf/reflect/protoregistry"
 	"google.golang.org/protobuf/encoding/protowire"
 	"fmt"
 	"strings"
@@ -329,6 +331,8 @@ func Corpus(tier string, embedded []*Schema) []*Schema {
 		deepest.msg.Field[0].JsonName = proto.String("custom_JSON.name")
 		deepest.repeated("more_values", 2, tString, "")
 		deepest.msg.Field[1].JsonName = proto.String("MoreValues")
+		deepest.field("quoted", 3, tBool, "")
+		deepest.msg.Field[2].JsonName = proto.String("a`b`c\\\"d")
 		inner.field("deepest", 3, tMessage, deepest.path)
 		mid.field("inner", 1, tMessage, inner.path)
 		mid.repeated("inners", 2, tMessage, inner.path)
@@ -500,7 +504,8 @@ func Corpus(tier string, embedded []*Schema) []*Schema {
 		f := file("vc/names.proto", pkg, goPkg("names", ""))
 		m := newMsg(pkg, "Collide")
 		names := []string{"get", "set", "has", "clear", "range", "type", "new", "descriptor", "interface", "mutable", "new_field", "which_oneof", "get_unknown", "set_unknown", "is_valid", "proto_methods",
-			"x", "n", "l", "i", "options", "dAtA", "size", "input", "value", "iNdEx", "wire", "fieldNum", "wireType", "b", "v", "k", "f", "fd", "err", "state", "unknown_fields", "size_cache", "string", "reset", "proto_message"}
+			"x", "n", "l", "i", "options", "dAtA", "size", "input", "value", "iNdEx", "wire", "fieldNum", "wireType", "b", "v", "k", "f", "fd", "err", "state", "unknown_fields", "size_cache", "string", "reset", "proto_message",
+			"proto_reflect", "slow_proto_reflect", "marshal", "unmarshal", "extension_range_array", "extension_map"}
 		kinds := []T{tString, tInt32, tBool, tBytes, tDouble, tSint64}
 		for i, nme := range names {
 			m.field(nme, int32(i+1), kinds[i%len(kinds)], "")
@@ -558,6 +563,18 @@ func Corpus(tier string, embedded []*Schema) []*Schema {
 		f.EnumType = append(f.EnumType, enum("Type", "type_unknown", 0, "func", 1, "nil", 2, "TYPE_X", 3, "range", 4, "string", 5))
 		kw.field("kind_of", 102, tEnum, "."+pkg+".Type")
 		f.MessageType = append(f.MessageType, kw.msg)
+		// oneof members and fields named after a nested message / enum of the same message (protogen appends `_` to the
+		// wrapper type on a clash)
+		shape := newMsg(pkg, "Shape")
+		circle := shape.nested("Circle")
+		circle.field("r", 1, tDouble, "")
+		shape.msg.EnumType = append(shape.msg.EnumType, enum("Square", "SQUARE_ZERO", 0, "SQUARE_ONE", 1))
+		so := shape.oneof("kind")
+		shape.member(so, "circle", 1, tMessage, circle.path)
+		shape.member(so, "square", 2, tEnum, shape.path+".Square")
+		shape.member(so, "label", 3, tString, "")
+		shape.nested("Label").field("text", 1, tString, "")
+		f.MessageType = append(f.MessageType, shape.msg)
 		// a message with more fields than fit one machine word of presence bits
 		wide := newMsg(pkg, "Wide")
 		for i := 1; i <= 70; i++ {
@@ -730,7 +747,13 @@ func Corpus(tier string, embedded []*Schema) []*Schema {
 		cm := newMsg(pkg, "Ledger")
 		cm.mapField("batches", 1, tString, tMessage, bm.path)
 		fc.MessageType = append(fc.MessageType, cm.msg)
-		add(&Schema{Name: "filenames", Files: []*descriptorpb.FileDescriptorProto{fa, fb, fc}})
+		// the text `File_` / `file_` inside the path itself
+		fd := file("vc/store/File_index.file_x.proto", pkg, goPkg("filenames", ""), "vc/9lives_UPPER.proto", "vc/Bank/TxMsgs.proto")
+		dm := newMsg(pkg, "FileIndex")
+		dm.field("ledger", 1, tMessage, cm.path)
+		dm.field("kind", 2, tEnum, "."+pkg+".TxKind")
+		fd.MessageType = append(fd.MessageType, dm.msg)
+		add(&Schema{Name: "filenames", Files: []*descriptorpb.FileDescriptorProto{fa, fb, fc, fd}})
 	}
 
 	// ---- a file that declares only enums (and one that declares nothing), imported from another Go package and from the same one
@@ -1018,12 +1041,63 @@ func Corpus(tier string, embedded []*Schema) []*Schema {
 			tm.mapField("by_name", 4, tString, tMessage, om.path)
 			tm.field("mid", 5, tMessage, mm.path)
 			ft.MessageType = append(ft.MessageType, tm.msg)
-			return []*descriptorpb.FileDescriptorProto{fo, fi, fm, ft}
+			// two files of one Go package, the first re-exporting the second
+			s2 := file("vc/"+schema+"/same/s2.proto", base+".same", goPkg(schema, "same"))
+			s2.EnumType = append(s2.EnumType, enum("Mode", "MODE_UNSPECIFIED", 0, "MODE_ON", 1))
+			s1 := file("vc/"+schema+"/same/s1.proto", base+".same", goPkg(schema, "same"), s2.GetName())
+			s1.PublicDependency = []int32{0}
+			sm := newMsg(base+".same", "UsesMode")
+			sm.field("mode", 1, tEnum, "."+base+".same.Mode")
+			s1.MessageType = append(s1.MessageType, sm.msg)
+			// an umbrella file: nothing but public imports (one of them of a file that declares only a service)
+			sv := file("vc/"+schema+"/svc/only.proto", base+".svc", goPkg(schema, "svc"), fi.GetName())
+			sv.Service = append(sv.Service, &descriptorpb.ServiceDescriptorProto{Name: proto.String("Only"), Method: []*descriptorpb.MethodDescriptorProto{
+				{Name: proto.String("Get"), InputType: proto.String(im.path), OutputType: proto.String(im.path)}}})
+			um := file("vc/"+schema+"/umb/all.proto", base+".umb", goPkg(schema, "umb"), fo.GetName(), sv.GetName())
+			um.PublicDependency = []int32{0, 1}
+			// a user of the umbrella
+			uu := file("vc/"+schema+"/user.proto", base+".user", goPkg(schema, "user"), um.GetName(), s1.GetName())
+			um2 := newMsg(base+".user", "User")
+			um2.field("settings", 1, tMessage, om.path)
+			um2.field("mode", 2, tEnum, "."+base+".same.Mode")
+			uu.MessageType = append(uu.MessageType, um2.msg)
+			return []*descriptorpb.FileDescriptorProto{fo, fi, fm, ft, s2, s1, sv, um, uu}
 		}
 		add(&Schema{Name: "pubimp", Files: mk("pubimp", "settings", "items")})
 		// the same with the dependencies' Go packages called like locals of the generated closures (`options`, `input`):
 		// known finding F21, isolated here
 		add(&Schema{Name: "pkglocals", Files: mk("pkglocals", "options", "input"), Known: "F21"})
+	}
+	// ---- proto2 neighbours (generated by the stock protoc-gen-go into the same workspace): publicly imported from another
+	// Go package (forwarding declarations incl. default-value constants), and imported from a proto3 file of the SAME Go
+	// package (init chaining across the two generators)
+	{
+		l2 := file("vc/mixed/legacy/old.proto", "vc.mixed.legacy", goPkg("mixed", "legacy"))
+		l2.Syntax = proto.String("proto2")
+		l2.EnumType = append(l2.EnumType, enum("Level", "LEVEL_LOW", 0, "LEVEL_MID", 1, "LEVEL_HIGH", 3))
+		lo := newMsg("vc.mixed.legacy", "Old")
+		lf := lo.field("level", 1, tEnum, ".vc.mixed.legacy.Level")
+		lf.DefaultValue = proto.String("LEVEL_HIGH")
+		lo.field("name", 2, tString, "").DefaultValue = proto.String("x")
+		lo.field("count", 3, tInt32, "").DefaultValue = proto.String("7")
+		l2.MessageType = append(l2.MessageType, lo.msg)
+		mid := file("vc/mixed/mid.proto", "vc.mixed.mid", goPkg("mixed", "mid"), l2.GetName())
+		mid.PublicDependency = []int32{0}
+		mm := newMsg("vc.mixed.mid", "Mid")
+		mm.field("old", 1, tMessage, lo.path)
+		mid.MessageType = append(mid.MessageType, mm.msg)
+		// same Go package: z.proto (proto2, sorts last) imported by a.proto (proto3, sorts first)
+		z := file("vc/mixed/same/z.proto", "vc.mixed.same", goPkg("mixed", "same"))
+		z.Syntax = proto.String("proto2")
+		zm := newMsg("vc.mixed.same", "Legacy")
+		zm.field("v", 1, tInt32, "")
+		z.MessageType = append(z.MessageType, zm.msg)
+		a := file("vc/mixed/same/a.proto", "vc.mixed.same", goPkg("mixed", "same"), z.GetName())
+		am := newMsg("vc.mixed.same", "Modern")
+		am.field("legacy", 1, tMessage, zm.path)
+		am.repeated("more", 2, tMessage, zm.path)
+		a.MessageType = append(a.MessageType, am.msg)
+		add(&Schema{Name: "mixed", Files: []*descriptorpb.FileDescriptorProto{l2, mid, z, a}, Generate: []string{mid.GetName(), a.GetName()}, PbGo: []string{l2.GetName(), z.GetName()}})
 	}
 	{
 		f := file("vc/nestedext.proto", "vc.nestedext", goPkg("nestedext", ""), "google/protobuf/descriptor.proto")
@@ -1039,6 +1113,46 @@ func Corpus(tier string, embedded []*Schema) []*Schema {
 			Label: descriptorpb.FieldDescriptorProto_LABEL_OPTIONAL.Enum(), JsonName: proto.String("innerNote"), Extendee: proto.String(".google.protobuf.FieldOptions")})
 		f.MessageType = append(f.MessageType, m.msg)
 		add(&Schema{Name: "nestedext", Files: []*descriptorpb.FileDescriptorProto{f}})
+	}
+
+	// ---- the well-known files themselves as files to generate (their special helper functions: Any, Timestamp, Duration,
+	// FieldMask, Struct/Value/ListValue, the wrappers), into private Go packages
+	{
+		var files []*descriptorpb.FileDescriptorProto
+		for _, n := range []string{"any", "duration", "timestamp", "field_mask", "struct", "wrappers", "empty"} {
+			fd, err := protoregistry.GlobalFiles.FindFileByPath("google/protobuf/" + n + ".proto")
+			if err != nil {
+				continue
+			}
+			fp := protodesc.ToFileDescriptorProto(fd)
+			if fp.Options == nil {
+				fp.Options = &descriptorpb.FileOptions{}
+			}
+			fp.Options.GoPackage = proto.String(goPkg("wktgen", n+"pb"))
+			files = append(files, fp)
+		}
+		add(&Schema{Name: "wktgen", Files: files})
+	}
+
+	// ---- two more known findings, each isolated in a schema of its own
+	{
+		// F24: descriptor variables are named fd_<MessageGoName>_<field name>: A.B_c and A.B.c both give fd_A_B_c
+		f := file("vc/fdclash.proto", "vc.fdclash", goPkg("fdclash", ""))
+		a := newMsg("vc.fdclash", "A")
+		b := a.nested("B")
+		b.field("c", 1, tInt32, "")
+		a.field("B_c", 1, tString, "")
+		a.field("b", 2, tMessage, b.path)
+		f.MessageType = append(f.MessageType, a.msg)
+		add(&Schema{Name: "fdclash", Files: []*descriptorpb.FileDescriptorProto{f}, Known: "F24"})
+		// F25: the `_` suffix given to a reserved name can hit a name that already exists
+		g := file("vc/renameclash.proto", "vc.renameclash", goPkg("renameclash", ""))
+		m := newMsg("vc.renameclash", "M")
+		o := m.oneof("type")
+		m.member(o, "a", 1, tString, "")
+		m.field("type_", 2, tInt32, "")
+		g.MessageType = append(g.MessageType, m.msg)
+		add(&Schema{Name: "renameclash", Files: []*descriptorpb.FileDescriptorProto{g}, Known: "F25"})
 	}
 
 	// ---- requests that must not produce code
@@ -1058,6 +1172,9 @@ func Corpus(tier string, embedded []*Schema) []*Schema {
 		add(&Schema{Name: "unknown_feature_empty", Files: []*descriptorpb.FileDescriptorProto{g}, Param: "features=", ExpectError: true})
 		add(&Schema{Name: "unknown_feature_gap", Files: []*descriptorpb.FileDescriptorProto{g}, Param: "features=protoc++fast", ExpectError: true})
 		add(&Schema{Name: "unknown_feature_trail", Files: []*descriptorpb.FileDescriptorProto{g}, Param: "features=protoc+fast+", ExpectError: true})
+		// an unknown name after (or before) the catch-all
+		add(&Schema{Name: "unknown_feature_after_all", Files: []*descriptorpb.FileDescriptorProto{g}, Param: "features=all+nosuchfeature", ExpectError: true})
+		add(&Schema{Name: "unknown_feature_before_all", Files: []*descriptorpb.FileDescriptorProto{g}, Param: "features=nosuchfeature+all", ExpectError: true})
 		g2 := proto.Clone(g).(*descriptorpb.FileDescriptorProto)
 		g2.Options.GoPackage = proto.String(goPkg("featexplicit", ""))
 		g2.Name = proto.String("vc/featexplicit.proto")
